@@ -9,7 +9,8 @@ of the universe and a second unknown name, a two-key map}.
 quick: the full product for signatures with ≤1 positional and ≤1 keyword-only parameter, a seeded
 10 % of the rest;  thorough: everything.
 
-`go` cases: the four Go callable signatures × {module function, via instance, via class} × calls.
+`go` cases: the four Go callable signatures × {module function, via instance, via class with the
+receiver first, via class without receiver} × calls.
 
 Input line:  `<class> | <def source> ## <call source>`   or   `go:<sig>:<route> | <call source>`
 -/
@@ -137,17 +138,20 @@ def GoSig.tag : GoSig → String
 def Route.tag : Route → String
   | .moduleFn => "mod" | .viaInstance _ => "inst" | .viaClass => "class"
 
-def showRecv (r : Route) : Recv → String
+def showRecv : Recv → String
   | .obj _ => "O"
-  | .module => if r == .viaClass then "N" else "M"   -- a type's method carries a nil *Module
+  | .module => "M"
 
-def showDelivered (r : Route) (d : Delivered) : String :=
-  "(" ++ showRecv r d.self ++ " " ++ showVals d.args ++ " "
+def showDelivered (d : Delivered) : String :=
+  "(" ++ showRecv d.self ++ " " ++ showVals d.args ++ " "
     ++ (match d.kwargs with | some k => showDict k | none => "-") ++ ")"
 
-/-- model of a call of a Go callable: the same call-site path as for a `def`, then py/method.go -/
-def goModel (g : GoSig) (r : Route) (c : CallExpr) : Except Err Delivered :=
-  let pre : List Val := if r == .viaClass then [99] else []
+/-- the harness' `o` (token 99) is the only instance of the type `T` among the values used -/
+def isInstT (v : Val) : Bool := v == 99
+
+/-- model of a call of a Go callable: the same call-site path as for a `def`, then py/method.go;
+`pre` = leading positionals (`[99]` = the receiver `o` of a call through the class) -/
+def goModel (g : GoSig) (r : Route) (pre : List Val) (c : CallExpr) : Except Err Delivered :=
   let stack := [Item.val 0] ++ callHelperPush (pre ++ c.args) c.kws
   if callHelperTooMany 0 (pre ++ c.args).length c.kws.length then .error .syntax else
   match vmCallSlice (callHelperArgc 0 (pre ++ c.args).length c.kws.length) stack with
@@ -158,24 +162,26 @@ def goModel (g : GoSig) (r : Route) (c : CallExpr) : Except Err Delivered :=
     | some args =>
       match vmCallArgs args sl.kwargsTuple c.star c.dstar with
       | .error e => .error e
-      | .ok (args, kwargs) => goCall g r args kwargs
+      | .ok (args, kwargs) => goCall g r isInstT args kwargs
 
-def goSpec (g : GoSig) (r : Route) (c : CallExpr) : Option Delivered :=
-  let pre : List Val := if r == .viaClass then [99] else []
+def goSpec (g : GoSig) (r : Route) (pre : List Val) (c : CallExpr) : Option Delivered :=
   match specCallArgs { c with args := pre ++ c.args } with
   | none => none
-  | some (args, kws) => specGoCall g r args kws
+  | some (args, kws) => specGoCall g r isInstT args kws
 
-def goCase (g : GoSig) (r : Route) (c : CallExpr) : Case :=
-  let m := goModel g r c
-  let sp := goSpec g r c
+/-- `pre = [99]`: `T.m(o, …)`; `pre = []` through the class: the receiver is missing or is whatever
+comes first (`T.m()`, `T.m(10)`, `T.m(*[30])`: TypeError) -/
+def goCase (g : GoSig) (r : Route) (pre : List Val) (c : CallExpr) : Case :=
+  let m := goModel g r pre c
+  let sp := goSpec g r pre c
   let target := match r with
     | .moduleFn => s!"c04m.{g.tag}(" | .viaInstance _ => s!"o.{g.tag}(" | .viaClass => s!"T.{g.tag}("
-  let pre := if r == .viaClass then ["o"] else []
-  { input := s!"go:{g.tag}:{r.tag}/{callClass c} | {target}{callArgsSrc pre c})",
-    modelV := (match m with | .ok d => showDelivered r d | .error e => e.py),
-    specV := (match sp with | some d => showDelivered .moduleFn d | none => "E:TypeError"),
-    tags := ["nt"] ++ (if kfViaClass r then ["kf=C04-K01"] else []) }
+  let preS := pre.map (fun v => if v == 99 then "o" else toString v)
+  let rt := r.tag ++ (if r == .viaClass && pre.isEmpty then "0" else "")
+  { input := s!"go:{g.tag}:{rt}/{callClass c} | {target}{callArgsSrc preS c})",
+    modelV := (match m with | .ok d => showDelivered d | .error e => e.py),
+    specV := (match sp with | some d => showDelivered d | none => "E:TypeError"),
+    tags := ["nt"] }
 
 def goCalls : List CallExpr := Id.run do
   let mut out : List CallExpr := []
@@ -249,8 +255,8 @@ def genMain (tier : String) (seed : Nat) : IO Unit := do
     emit (bigDefCase a k)
   for c in regressions do emit c
   for g in [GoSig.args, .argsKw, .noArgs, .oneArg] do
-    for r in [Route.moduleFn, .viaInstance 99, .viaClass] do
+    for (r, pre) in [(Route.moduleFn, []), (.viaInstance 99, []), (.viaClass, [99]), (.viaClass, [])] do
       for c in goCalls do
-        emit (goCase g r c)
+        emit (goCase g r pre c)
 
 end GPy.C04
